@@ -1687,7 +1687,7 @@ pub fn exec(w: &mut World, op: &J) -> StepOut {
             let mut s = w.slots.remove(&h).unwrap();
             let v0 = s.view();
             // Only write through a region that passed the range check of the previous step.
-            let ok_region = v0.cap == 0 || alloc::lookup(v0.ptr).map(|b| b.live && v0.ptr + v0.cap <= b.user + b.size).unwrap_or(false);
+            let ok_region = !alloc::ENABLED || v0.cap == 0 || alloc::lookup(v0.ptr).map(|b| b.live && v0.ptr + v0.cap <= b.user + b.size).unwrap_or(false);
             if !ok_region {
                 w.slots.insert(h, s);
                 return skip;
